@@ -111,7 +111,13 @@ class Tol:
     def __truediv__(self, o): return Tol(self.v / self._o(o))
     def __rtruediv__(self, o): return Tol(self._o(o) / self.v)
     def __neg__(self): return Tol(-self.v)
-    def __eq__(self, o): return abs(self.v - self._o(o)) <= self._t(o)
+    def __eq__(self, o):
+        ov = self._o(o)
+        if self.v != self.v or ov != ov:
+            return (self.v != self.v) and (ov != ov)     # NaN matches NaN only
+        if self.v in (float('inf'), float('-inf')) or ov in (float('inf'), float('-inf')):
+            return self.v == ov
+        return abs(self.v - ov) <= self._t(o)
     def __ne__(self, o): return not self.__eq__(o)
     def __le__(self, o): return self.v <= self._o(o) + self._t(o)
     def __ge__(self, o): return self.v >= self._o(o) - self._t(o)
